@@ -53,6 +53,13 @@ class AlignmentType:
           "Wrong use of $ marker\n"+
           "{} >= {}$".format(gfapy.posvalue(endpos),
                              gfapy.posvalue(begpos)))
+      if gfapy.posvalue(endpos) != gfapy.posvalue(begpos):
+        # only one position of a segment is the last one
+        raise gfapy.FormatError(
+          "Line: {}\n".format(str(self))+
+          "Wrong use of $ marker\n"+
+          "{}$ and {}$ cannot both be the last position".format(
+            gfapy.posvalue(begpos), gfapy.posvalue(endpos)))
       return ("sfx", True)
     else:
       if gfapy.islastpos(endpos):
